@@ -285,6 +285,9 @@ func main() {
 	case "-probe":
 		probe(os.Args[2])
 		return
+	case "-probe-redo":
+		probeRedo()
+		return
 	}
 	traces, err := mbt.LoadTraces(os.Args[1])
 	if err != nil {
